@@ -35,6 +35,40 @@ theorem invalidKey_errors (e : List Nat) (h : ∃ x ∈ e, 55237 ≤ x ∧ x ≤
     omega
   simp [this]
 
+/-- **the constructor never stores another monomial** (`storeKey`: exponents as the 64-bit integers a caller hands
+over): whatever it accepts decodes to exactly the exponents given -/
+theorem store_roundtrip (e : List Int) (k : List Nat) (h : storeKey Generated.keyOffset e = some k) :
+    (decodeKey Generated.keyOffset k).map Int.ofNat = e := by
+  unfold storeKey at h
+  split at h
+  · rename_i hall
+    rw [Key.key_roundtrip _ _ k h, List.map_map]
+    rw [List.all_eq_true] at hall
+    conv => rhs; rw [← List.map_id e]
+    refine List.map_congr_left fun x hx => ?_
+    have := hall x hx
+    simp only [Bool.and_eq_true, decide_eq_true_eq] at this
+    simp only [Function.comp, id]
+    exact Int.toNat_of_nonneg this.1
+  · simp at h
+
+/-- ... and it refuses (`ValueError`) every row with a negative exponent or one beyond 1114052, in particular
+everything from 2**32 on -/
+theorem store_rejects_out_of_range (e : List Int) (h : ∃ x ∈ e, x < 0 ∨ 1114052 < x) :
+    storeKey Generated.keyOffset e = none := by
+  obtain ⟨x, hx, hr⟩ := h
+  unfold storeKey
+  rw [if_neg]
+  rw [List.all_eq_true]
+  intro hall
+  have := hall x hx
+  simp only [keyOffset_is_59, Bool.and_eq_true, decide_eq_true_eq] at this
+  omega
+
+/-- before the repair D56 the row was narrowed to uint32 first: `2**32 + 5` was stored as the exponent 5, `2**40` as 0 -/
+theorem old_store_wrapped : storeKeyOld 59 [4294967301] = encodeKey 59 [5] ∧ storeKeyOld 59 [1099511627776, 1] = encodeKey 59 [0, 1] ∧
+    storeKey 59 [4294967301] = none ∧ storeKey 59 [1114052] = some [1114111] := by decide
+
 /-- the key `multiply` writes a product term to is the key of the exponent sum, on both paths of the repair of
 D15: under the guard the byte formatter is exact, outside it the key is built from the sum itself -/
 theorem mulKeyPath_exact (dtypeOk : Bool) (maxExp : Nat) (e1 e2 : List Nat) (hlen : e1.length = e2.length)
